@@ -52,6 +52,7 @@ def run(ctx) -> None:
     ctx.reuse("C13.mask", c10.slots)
     ctx.reuse("C13.mask", c10.evo_member_conversion)
     ctx.guard("C13.siblings", siblings)
+    ctx.guard("C13.selection-array", selection_array)
     from .common import memo_rule
 
     ctx.guard("C13.no-cache", memo_rule, "C13.no-cache", ("evotools/commands.py", "evotools/worklist.py"))
@@ -92,6 +93,48 @@ def same_args(ctx, name: str, track: str) -> None:
     apps = [cs for cs in fv.calls() if isinstance(cs.call.func, ast.Attribute) and cs.call.func.attr == "append" and is_name(cs.call.func.value, f.params[0])]
     ok = len(apps) == 1 and key(fv.res.resolve(apps[0].call.args[0], apps[0].node)) == key(fv.res.resolve(F.call, F.node))
     ctx.rep.check(ok, rule, f"{f.qualname}/append", "the formatted command is appended once, unmodified", "the appended record is not exactly the formatted command", where=f.where())
+
+
+def selection_array(ctx) -> None:
+    """evo_make_selection_array marks exactly the named wells of a rows x columns grid and fails on a well that is not in
+    the grid (a KeyError of the index lookup): grid and index map are built for (rows, columns) in that order, every named
+    well is looked up by subscript (no membership filter that silently drops unknown IDs)."""
+    rule = "C13.selection-array"
+    f = ctx.prog.require_func("evo_make_selection_array", rule)
+    fv = ctx.fv(f)
+    if len(f.params) < 3:
+        ctx.rep.inconclusive(rule, f.qualname, "expected the parameters (rows, columns, wells)", where=f.where())
+        return
+    R, C, W = f.params[0], f.params[1], f.params[2]
+    w = f.where()
+    grids = [x for x in own_walk(f.node) if isinstance(x, ast.Call) and call_fname(x) in ("zeros", "full", "empty", "zeros_like") and x.args and isinstance(x.args[0], ast.Tuple)]
+    ok_grid = len(grids) == 1 and [getattr(e, "id", None) for e in grids[0].args[0].elts] == [R, C]
+    ctx.rep.check(ok_grid, rule, f"{f.qualname}/grid", "the selection grid has shape (rows, columns)",
+                  f"the selection grid is `{show(grids[0])[:50] if grids else 'not found'}`; expected zeros((rows, columns))", where=w)
+    maps = [x for x in own_walk(f.node) if isinstance(x, ast.Call) and call_fname(x) in ("make_well_index_dict", "make_well_array")]
+    ok_map = bool(maps) and all([getattr(a, "id", None) for a in m.args[:2]] == [R, C] and not m.keywords for m in maps)
+    ctx.rep.check(ok_map, rule, f"{f.qualname}/index-map", "the well index map is built for (rows, columns)",
+                  f"the well index map is `{show(maps[0])[:60] if maps else 'not found'}`: rows and columns are not passed in that order, so wells of a non-square labware are looked up in the wrong grid", where=w)
+    # every named well is looked up by subscript
+    stores = [n for n in fv.cfg.nodes if n.kind == "stmt" and isinstance(n.ast, ast.Assign) and isinstance(n.ast.targets[0], ast.Subscript)]
+    strict = False
+    for n in stores:
+        idx = fv.res.resolve(n.ast.targets[0].slice, n.id)
+        loops = [h for h in fv.cfg.enclosing_loops(n.id) if fv.cfg.nodes[h].kind == "for"]
+        if isinstance(idx, ast.Subscript) and call_fname(idx.value) == "make_well_index_dict" and loops:
+            ep = elem_parts(idx.slice)
+            it_ok = ep is not None and ep[0] == f"loop@{loops[-1]}" and is_name(strip_norm(ep[1]), W)
+            uncond = not fv.controlling(n.id, within=fv.cfg.loop_body[loops[-1]])
+            val_ok = isinstance(n.ast.value, ast.Constant) and n.ast.value.value == 1
+            strict = strict or (it_ok and uncond and val_ok)
+    lenient = [x for x in own_walk(f.node) if (isinstance(x, ast.Call) and call_fname(x) in ("isin", "in1d", "intersect1d", "get")) or (isinstance(x, ast.Compare) and any(isinstance(o, (ast.In, ast.NotIn)) for o in x.ops))]
+    if strict and not lenient:
+        ctx.rep.holds(rule, f"{f.qualname}/lookup", "every named well is looked up in the index map (unknown IDs raise KeyError)", where=w)
+    elif lenient:
+        ctx.rep.refuted(rule, f"{f.qualname}/lookup", f"the selection is built with a membership test (`{show(lenient[0])[:50]}`): well IDs that are not in the grid are silently dropped instead of being "
+                        "rejected, so the command can select fewer wells than tips/volumes were given", where=f.where(lenient[0]))
+    else:
+        ctx.rep.inconclusive(rule, f"{f.qualname}/lookup", "cannot see how the named wells are marked in the grid", where=w)
 
 
 def _strict_guard(fv, var_names) -> Tuple[bool, str]:
